@@ -64,6 +64,7 @@ type vfCWorld struct {
 	salt     int
 	out      []map[string]any
 	maxk     int
+	noProj   bool
 }
 
 func (w *vfCWorld) open(name string, content map[string][]byte) {
@@ -215,7 +216,7 @@ func (w *vfCWorld) announce(d string, k int) {
 
 func (w *vfCWorld) proj(s, d string) map[string]any {
 	st, sd := w.st[s], w.st[d]
-	if st.ds.dead || sd.omd == nil || w.gpk == nil {
+	if w.noProj || st.ds.dead || sd.omd == nil || w.gpk == nil {
 		return nil
 	}
 	gpkRaw, dpk := vfRaw(w.gpk), vfRaw(sd.omd.Device())
